@@ -11,6 +11,7 @@ pub mod model;
 pub mod mutate;
 pub mod sched;
 pub mod seq;
+pub mod stress;
 pub mod util;
 
 pub use crate::core::{main_with, Ctx, Fail, Outcome, Registry, Subject, Tier, Verdict};
